@@ -137,38 +137,43 @@ def make_shard_state(rng, accounts, wc=0, extra_currencies=False):
     extra_currencies: some leaves carry a non-empty ExtraCurrencyCollection in their DepthBalanceInfo, so the leaf cell
     holds the extra dictionary BEFORE the account reference, and every fork above it holds the summed dictionary as its
     third reference (ahmn_fork left:^ right:^ extra:Y)."""
+    def sd():
+        # split_depth:(#<= 30) of DepthBalanceInfo: 0 in most real states, any value up to 30 in a valid one
+        return enc_uint(rng.choice([0, 0, 0, 1, 29, 30, 30, rng.randint(0, 30)]), 5)
+
     def leaf(acc):
         bal = rng.getrandbits(30)
         xc = _rand_extra(rng) if extra_currencies and rng.random() < 0.5 else {}
         val = rbits(rng, 256) + enc_uint(rng.getrandbits(40), 64)
         if xc:
             cb, crefs = currency(bal, xc)
-            return enc_uint(0, 5) + cb + val, tuple(crefs) + (acc,), (bal, xc)
-        return enc_uint(0, 5) + currency(bal) + val, (acc,), (bal, xc)
+            return sd() + cb + val, tuple(crefs) + (acc,), (bal, xc)
+        return sd() + currency(bal) + val, (acc,), (bal, xc)
 
     def fork_extra(l, r):
         s = (l[0] + r[0], _add_extra(l[1], r[1]))
         if s[1]:
             cb, crefs = currency(s[0], s[1])
-            return s, enc_uint(0, 5) + cb, tuple(crefs)
-        return s, enc_uint(0, 5) + currency(s[0])
+            return s, sd() + cb, tuple(crefs)
+        return s, sd() + currency(s[0])
     if accounts:
         items = {bin(k)[2:].zfill(256): v for k, v in accounts.items()}
         root, total = hashmap.build_edge(items, 256, leaf, fork_extra)
         if total[1]:
             cb, crefs = currency(total[0], total[1])
-            acc_cell = RCell('1' + enc_uint(0, 5) + cb, (root,) + tuple(crefs))
+            acc_cell = RCell('1' + sd() + cb, (root,) + tuple(crefs))
         else:
-            acc_cell = RCell('1' + enc_uint(0, 5) + currency(total[0]), (root,))
+            acc_cell = RCell('1' + sd() + currency(total[0]), (root,))
     else:
-        acc_cell = RCell('0' + enc_uint(0, 5) + currency(0))
+        acc_cell = RCell('0' + sd() + currency(0))
     bits = '9023afe2'
     bits = bytes_to_bits(bytes.fromhex(bits))
     bits += enc_int(-239, 32)
-    bits += '00' + enc_uint(0, 6) + enc_int(wc, 32) + enc_uint(0, 64)
-    bits += enc_uint(rng.getrandbits(24), 32) + enc_uint(0, 32) + enc_uint(rng.getrandbits(31), 32) + enc_uint(rng.getrandbits(48), 64) + enc_uint(rng.getrandbits(24), 32)
+    pfx = rng.choice([0, 0, 1, 59, 60, rng.randint(0, 60)])       # shard_pfx_bits:(#<= 60)
+    bits += '00' + enc_uint(pfx, 6) + enc_int(wc, 32) + enc_uint(rng.getrandbits(64) if pfx else 0, 64)
+    bits += enc_uint(rng.getrandbits(24), 32) + enc_uint(rng.choice([0, 0, 1, rng.getrandbits(31)]), 32) + enc_uint(rng.getrandbits(31), 32) + enc_uint(rng.getrandbits(48), 64) + enc_uint(rng.getrandbits(24), 32)
     out_q = RCell(rbits(rng, 64), [RCell(rbits(rng, 12))])
-    bits += '0'  # before_split
+    bits += rng.choice('01')  # before_split
     third = RCell(enc_uint(0, 64) + enc_uint(0, 64) + currency(rng.getrandbits(50)) + currency(rng.getrandbits(20)) + '0' + '0')
     bits += '0'  # custom: nothing
     return RCell(bits, (out_q, acc_cell, third))
